@@ -8,6 +8,7 @@ Both are decided per function on the syntax tree; nothing is executed.
 from __future__ import annotations
 
 import ast
+import re
 from dataclasses import dataclass
 from typing import Iterator
 
@@ -225,7 +226,15 @@ def memo_tables(M: Model, files: set[str] | None = None) -> Iterator[MemoTable]:
             continue
         params = {a.arg for a in f.value_params}
         if f.decorators & {"functools.cache", "cache", "functools.lru_cache", "lru_cache"} or any(d.startswith(("functools.lru_cache", "lru_cache")) for d in f.decorators):
-            yield MemoTable(f, "functools.cache", [], "all parameters", "", params, None, f.node, how="functools.cache (keyed on every argument by construction)")
+            # keyed on every argument by construction - provided argument *equality* means "same value": aware datetimes (and
+            # times) compare equal when they denote the same instant at different offsets, floats equal ints, etc.
+            coarse = [p.arg for p in f.value_params if p.annotation is not None and re.search(r"\b(datetime|time|float|Decimal|timedelta)\b", unparse(p.annotation))
+                      and not re.search(r"\btimedelta\b", unparse(p.annotation))]
+            prob = None
+            if coarse:
+                prob = (f"memoised with functools on parameter(s) {coarse} whose equality is coarser than identity of value (aware datetimes that denote the same "
+                        f"instant at different offsets are equal and hash alike): the result cached for one is returned for the other")
+            yield MemoTable(f, "functools.cache", [], "all parameters", "", params, prob, f.node, how="functools.cache (keyed on every argument by construction)")
             continue
         stores: dict[str, list[ast.Assign]] = {}
         for n in own_nodes(f.node):
@@ -287,3 +296,49 @@ def memo_tables(M: Model, files: set[str] | None = None) -> Iterator[MemoTable]:
                             problem = (f"table `{table}` is keyed on `{ks}`, which is only derived from parameter(s) {lossy} (several arguments share a key), and a hit is "
                                        f"returned without checking the entry against the argument: the object built for another argument is handed back")
                 yield MemoTable(f, table, rks, ks, unparse(st.value), deps, problem, st)
+
+
+# ------------------------------------------------------------------------------------------------------ what a lazy fill reads
+
+
+def settable_properties(M: Model) -> set[str]:
+    """names of properties that have a setter somewhere in the package (mutable configuration)"""
+    out: set[str] = set()
+    for mod in M.mods.values():
+        for n in ast.walk(mod.tree):
+            if isinstance(n, ast.FunctionDef):
+                for d in n.decorator_list:
+                    if isinstance(d, ast.Attribute) and d.attr == "setter":
+                        out.add(n.name)
+    return out
+
+
+def lazy_fills(M: Model) -> Iterator[tuple[Func, ast.If, str, list[ast.expr]]]:
+    """(function, if-node, slot text, values stored) for every lazily filled slot: the attribute form recognised by `lazy_slots`
+    and the `x = getattr(o, NAME, None); if x is None: ...; setattr(o, NAME, x)` form."""
+    for ls in lazy_slots(M):
+        vals = [st.value for b in ls.node.body for st in ast.walk(b) if isinstance(st, (ast.Assign, ast.AnnAssign)) and getattr(st, "value", None) is not None]
+        yield ls.fn, ls.node, ls.slot, vals
+    for f in list(M.func_of_node.values()):
+        if isinstance(f.node, ast.Lambda):
+            continue
+        for i in own_nodes(f.node):
+            if not isinstance(i, ast.If):
+                continue
+            s = _is_none_test(i.test)
+            if not isinstance(s, ast.Name):
+                continue
+            src = None
+            for st in own_nodes(f.node):
+                if isinstance(st, (ast.Assign, ast.AnnAssign)) and getattr(st, "value", None) is not None and any(isinstance(t, ast.Name) and t.id == s.id for t in _targets(st)):
+                    v = st.value
+                    if isinstance(v, ast.Call) and isinstance(v.func, ast.Name) and v.func.id == "getattr" and len(v.args) == 3 and isinstance(v.args[2], ast.Constant) and v.args[2].value is None:
+                        src = v
+            if src is None:
+                continue
+            sets = [c for b in i.body for c in ast.walk(b) if isinstance(c, ast.Call) and isinstance(c.func, ast.Name) and c.func.id == "setattr" and len(c.args) == 3
+                    and unparse(c.args[0]) == unparse(src.args[0]) and unparse(c.args[1]) == unparse(src.args[1])]
+            if not sets:
+                continue
+            vals = [st.value for b in i.body for st in ast.walk(b) if isinstance(st, (ast.Assign, ast.AnnAssign)) and getattr(st, "value", None) is not None]
+            yield f, i, f"getattr({unparse(src.args[0])}, {unparse(src.args[1])})", vals
